@@ -8,12 +8,16 @@ the reference (mc/ref/dyn.py: explicit loops over lags, origins, particles, comp
 import collections
 import hashlib
 import itertools
+import json
+import os
 
 import numpy as np
 
 from mc.harness import Result, Sub
 from mc.ref.base import mk_snaps
 from mc.ref import dyn as RD
+from mc.ref import c03x as X3
+from mc.ref import c14y as Y
 
 ASSUMPTIONS = [
     "value alphabets: real {1,-1,2}, complex {1, i, -1+i}; vectors / 2x2 tensors are fixed asymmetric arrangements of these "
@@ -23,8 +27,16 @@ ASSUMPTIONS = [
     "product; the symmetric-tensor alphabet makes both coincide",
     "evenly spaced = exactly one distinct difference between consecutive timesteps (a two-frame series is evenly spaced, a "
     "one-frame series has no difference and takes the single-origin path; both paths give the same table there)",
-    "the Snapshots object only supplies timesteps and the particle number",
+    "the Snapshots object only supplies timesteps and the particle number; timesteps are integers up to 1e12 + span (exact in int64 and float64); "
+    "evenly spaced is decided on the integer timesteps alone - neither their absolute size nor dt enters",
     "float tolerance rtol 1e-9 / atol 1e-11; time axis rtol 1e-12; lag zero compared with == 1.0",
+    "C14.outputfile: the file named by `outputfile` is a comma-separated table with the header t,time_corr and one line per frame whose "
+    "numbers equal the returned table to the documented 8 decimals (|difference| <= 0.5e-8); the textual form of the numbers is not "
+    "demanded; a call without `outputfile` writes / touches no file",
+    "C14.sequence: the result of a call must not depend on the calls made before it in the same process (oracle: the same call made "
+    "first in a forked child with a re-imported library, which is additionally compared with the loop reference); in the 'shared' mode the "
+    "same Snapshots object is passed to all calls with the same timesteps and ONE series buffer per (shape, dtype) is refilled in place "
+    "between the calls; the frozen Snapshots / SingleSnapshot objects themselves are never edited in place (documented as immutable)",
 ]
 
 REAL = [1.0, -1.0, 2.0]
@@ -49,6 +61,7 @@ SPACINGS = {
     "uneven": [0, 1, 10, 100, 1000, 10000],
     "late": [0, 10, 20, 50, 60, 70],  # evenly spaced up to three frames, uneven from the fourth on
     "even7": [0, 7, 14, 21, 28, 35],
+    "pow2": [0, 1, 2, 4, 8, 16],
 }
 INCS = [10, 40]  # step increments when the increment is part of the event
 # three increments: contains every way a cheap evenness heuristic is fooled within four frames, e.g. 0,10,15,30 (total span ==
@@ -84,6 +97,19 @@ def gen_log(tier, seed):
     yield from root_cases("C14.log", "t", (True,), (2,), T, ["uneven"], [0.002], sym=True)
     # three increments per event: all 3^(T-1) gap patterns (every pattern that fools a span / first-vs-last-gap heuristic)
     yield from root_cases("C14.log", "svt", (False, True), (1,), T, ["event3"], [0.002])
+    # numeric regimes of the spacing test: HUGE absolute timesteps with a small span (a relative tolerance on the absolute values calls every
+    # such schedule evenly spaced) - all gap patterns, the doubling schedule and the evenly spaced counterpart at the same offset
+    for off in (2_000_000_000, 10 ** 12):
+        yield from root_cases("C14.log", "s", (False,), (1,), T - 1, ["event3"], [0.002], offset=off)
+        yield from root_cases("C14.log", "v", (True,), (1,), T - 1, ["event3"], [0.002], offset=off)
+        yield from root_cases("C14.log", "s", (False,), (1,), T + 1, ["pow2", "even"], [0.002], offset=off)
+        yield from root_cases("C14.log", "t", (True,), (1,), T, ["pow2"], [0.002], offset=off)
+    # tiny / huge dt with uneven spacing (a test applied to the dt-scaled time axis with an absolute tolerance lets dt decide whether all
+    # origins are used): dt may only scale the t column
+    for dt in (1e-15, 2e-12, 1e6):
+        yield from root_cases("C14.log", "s", (False,), (1,), T - 1, ["event3"], [dt])
+        yield from root_cases("C14.log", "v", (True,), (1,), T - 1, ["event3"], [dt])
+        yield from root_cases("C14.log", "s", (False,), (1,), T, ["uneven", "late", "even"], [dt])
 
 
 def gen_lag0(tier, seed):
@@ -99,6 +125,9 @@ def gen_time_axis(tier, seed):
     for off in (0, 30, 123456):
         yield from root_cases("C14.time_axis", "s", (False,), (1,), 5, ["event"], [0.002, 0.005, 1.0], offset=off)
     yield from root_cases("C14.time_axis", "v", (True,), (2,), 3, ["even", "uneven", "late"], [0.005], offset=77)
+    # dt given explicitly as 0 / 0.0 (a numeric option with a default: `dt or 0.002` is exact for every other value): t == 0 in every row
+    yield from root_cases("C14.time_axis", "sv", (False, True), (1,), 4, ["even", "uneven"], [0.0, 0], offset=30)
+    yield from root_cases("C14.time_axis", "s", (False,), (1,), 4, ["event"], [1e-15, 2e-12, 1e6], offset=10 ** 12)
 
 
 def gen_dtypes(tier, seed):
@@ -109,6 +138,38 @@ def gen_dtypes(tier, seed):
         for c in root_cases("C14.dtypes", "svt", (cplx,), (2,), T, ["even", "uneven"], [0.002]):
             c["dtype"] = dt_
             yield c
+
+
+def gen_outputfile(tier, seed):
+    """the csv requested with `outputfile`: every state whose frame count is odd (and the very first state) asks for the file, the others do not;
+    the non-dyadic scale factor makes every normalised value a non-terminating decimal"""
+    T = 3 if tier == "quick" else 4
+    for name, shapes in (("c14_out.csv", "svt"), ("c14_out.dat", "s")):
+        for c in root_cases("C14.outputfile", shapes, (False, True), (2,), T, ["even", "uneven"], [0.002]):
+            c["outfile"] = name
+            c["scale"] = 1.0 / 3.0
+            yield c
+    yield from ({**c, "outfile": "c14_out.csv"} for c in root_cases("C14.outputfile", "s", (False,), (1,), 4, ["event"], [0.005], offset=123456))
+
+
+def check_file(R, name, obs, sig, where):
+    """the csv against the RETURNED table (obs: float array (T, 2)); returns the number of violations"""
+    if not os.path.exists(name):
+        R.fail(f"outputfile {name!r} was not written ({where})", sig=dict(sig, clause="outputfile_missing"))
+        return 1
+    head, rows, err = Y.read_csv_table(name)
+    if err or head != ["t", "time_corr"] or len(rows) != len(obs) or any(len(r) != 2 for r in rows):
+        R.fail(f"outputfile: header {head}, {len(rows)} rows, {err} - expected header ['t', 'time_corr'] and {len(obs)} rows of two numbers ({where})",
+               sig=dict(sig, clause="outputfile_layout"))
+        return 1
+    got = np.array(rows, float)
+    bad = np.abs(got - obs) > 0.5000001e-8 + 1e-15 * np.abs(obs)
+    if bad.any():
+        k = tuple(int(v) for v in np.argwhere(bad)[0])
+        R.fail(f"outputfile entry {k} = {got[k]!r}, returned table {obs[k]!r}: differs by more than 0.5e-8 ({where})",
+               sig=dict(sig, clause="outputfile_value"), exp=obs, obs=got)
+        return 1
+    return 0
 
 
 def run(case):
@@ -154,10 +215,20 @@ def run(case):
         if case.get("dtype"):
             x = x.astype(case["dtype"])
         x_in = x.copy()
-        res = time_correlation(snaps, x_in, dt=case["dt"])
+        ofile = case.get("outfile")
+        want_file = bool(ofile) and (T % 2 == 1 or states == 1)
+        if ofile:
+            before = open(ofile).read() if os.path.exists(ofile) else None
+        if want_file:
+            res = time_correlation(snaps, x_in, dt=case["dt"], outputfile=ofile)
+        else:
+            res = time_correlation(snaps, x_in, dt=case["dt"])
         t_ref, c_ref, c0, linear = RD.ref_time_corr(x, steps, case["dt"])
         sig = dict(sig0, path="linear" if linear else "single_origin")
         where = f"T={T} steps={steps} history={hist}"
+        if ofile and not want_file and (open(ofile).read() if os.path.exists(ofile) else None) != before:
+            nfail += 1
+            R.fail(f"a call without outputfile changed the file {ofile!r} ({where})", sig=dict(sig, clause="outputfile_touched"))
         if not c0 > 0:
             outside += 1  # 0/0: outside the domain (cannot happen with the letters above)
         elif list(res.columns) != ["t", "time_corr"] or res.shape != (T, 2):
@@ -187,6 +258,8 @@ def run(case):
             if T > 1 and np.abs(obs[1:, 1] - 1.0).max() > 1e-6:
                 nonflat += 1
             h.update(np.round(obs, 9).tobytes())
+            if want_file:
+                nfail += check_file(R, ofile, obs, sig, where)
         if not np.array_equal(x_in, x):
             nfail += 1
             R.fail("input series modified", sig=dict(sig, clause="input_modified"))
@@ -196,6 +269,8 @@ def run(case):
             for ev in events:
                 queue.append(hist + [ev])
                 transitions += 1
+    if case.get("outfile") and os.path.exists(case["outfile"]):
+        os.remove(case["outfile"])
     R.out = h.hexdigest()[:16]
     R.states = states
     R.transitions = transitions + 1
@@ -263,6 +338,85 @@ def run_scale(case):
     return R
 
 
+# ----------------------------------------------------------------------------------------- C14.sequence
+def gen_sequence(tier, seed):
+    depth = 2 if tier == "quick" else 3
+    nl = len(Y.SEQ_LETTERS)
+    for mode in ("fresh", "shared"):
+        for Lw in range(1, depth + 1):
+            for word in itertools.product(range(nl), repeat=Lw):
+                if Lw == 3 and len(set(word)) == 1:
+                    continue
+                yield {"sub": "C14.sequence", "word": list(word), "mode": mode}
+
+
+_SEQ_FRESH = {}
+
+
+def _seq_same(g, r):
+    return g["columns"] == r["columns"] and g["file"] == r["file"] and np.array_equal(np.array(g["values"]), np.array(r["values"]), equal_nan=True)
+
+
+def run_sequence(case):
+    R = Result()
+    names = [Y.SEQ_LETTERS[k]["id"] for k in case["word"]]
+    payload = X3.fresh_child(Y.seq_eval, case, Y.SEQ_MODS)
+    if "err" in payload:
+        R.fail(f"call sequence {names} ({case['mode']} objects) raised {payload['err']}", sig={"part": "sequence", "exception": True})
+        return R
+    for k in set(case["word"]):
+        if k in _SEQ_FRESH:
+            continue
+        lt = Y.SEQ_LETTERS[k]
+        one = X3.fresh_child(Y.seq_eval, {"word": [k], "mode": "fresh"}, Y.SEQ_MODS)
+        if "err" in one:
+            R.fail(f"single call {lt['id']} raised {one['err']}", sig={"part": "sequence", "exception": True})
+            return R
+        rec = one["ok"][0]
+        # the single first call against the definition (3-vectors and these timestep lists occur in no other sub-check)
+        x = Y.seq_series(lt)
+        t_ref, c_ref, c0, linear = RD.ref_time_corr(x, lt["steps"], lt["dt"])
+        obs = np.array(rec["values"], float)
+        sig = {"part": "sequence", "shape": lt["shape"], "complex": bool(lt["cplx"]), "position": "single"}
+        if rec["columns"] != ["t", "time_corr"] or obs.shape != (len(lt["steps"]), 2):
+            R.fail(f"single call {lt['id']}: table {rec['columns']} shape {obs.shape}", sig=dict(sig, clause="shape"))
+            return R
+        ok = np.allclose(obs[:, 1], c_ref, rtol=1e-9, atol=1e-11)
+        if not ok and lt["shape"] == "t":
+            ok = np.allclose(obs[:, 1], RD.ref_time_corr(x, lt["steps"], lt["dt"], y=np.swapaxes(x, -1, -2))[1], rtol=1e-9, atol=1e-11)
+        if not ok or not np.allclose(obs[:, 0], t_ref, rtol=1e-12, atol=0) or obs[0, 1] != 1.0:
+            R.fail(f"single call {lt['id']} (shape {lt['shape']}, d={lt['d']}, steps {lt['steps']}, dt {lt['dt']}) differs from the loop reference",
+                   sig=dict(sig, clause="value"), exp={"t": t_ref, "C": c_ref}, obs=obs)
+        if lt["file"]:
+            if rec["file"] is None:
+                R.fail(f"single call {lt['id']}: outputfile not written", sig=dict(sig, clause="outputfile_missing"))
+            else:
+                with open("c14_seq_ref.csv", "w") as f:
+                    f.write(rec["file"])
+                check_file(R, "c14_seq_ref.csv", obs, sig, f"single call {lt['id']}")
+                os.remove("c14_seq_ref.csv")
+        elif rec["file"] is not None:
+            R.fail(f"single call {lt['id']} without outputfile: {rec['file']}", sig=dict(sig, clause="outputfile_touched"))
+        _SEQ_FRESH[k] = rec
+    states = set()
+    for pos_, (k, got) in enumerate(zip(case["word"], payload["ok"])):
+        ref = _SEQ_FRESH[k]
+        lt = Y.SEQ_LETTERS[k]
+        if not _seq_same(got, ref):
+            what = "table" if (got["columns"] == ref["columns"] and got["values"] != ref["values"]) else "file / layout"
+            R.fail(f"call #{pos_ + 1} ({lt['id']}: shape {lt['shape']} d={lt['d']} complex={lt['cplx']} N={lt['N']} steps={lt['steps']} dt={lt['dt']} "
+                   f"file={lt['file']}) of the sequence {names} ({case['mode']} objects) differs ({what}) from the same call made first in a fresh process",
+                   sig={"part": "sequence", "mode": case["mode"], "position": "later" if pos_ else "first"},
+                   exp={"values": ref["values"], "file": ref["file"]}, obs={"values": got["values"], "file": got["file"]})
+        states.add(json.dumps(got, sort_keys=True)[:4000])
+    R.outcome(sorted(states), nd=9)
+    R.states = len(case["word"]) + 1
+    R.transitions = len(case["word"])
+    R.elem = sum(len(g["values"]) for g in payload["ok"])
+    R.nontrivial = True
+    return R
+
+
 def subs(tier, seed):
     q = tier == "quick"
     hist = "BFS over frame-append histories below each root (root = shape x real/complex x N x spacing x dt x first frame); an event " \
@@ -275,17 +429,31 @@ def subs(tier, seed):
         Sub("C14.log", gen_log, run,
             rule=hist + "unevenly spaced timesteps (0,1,10,100,..; even then uneven; increment {10,40} - and {10,5,15}, all gap patterns - chosen per "
                         "event so that every even/uneven pattern incl. the degenerate T = 1, 2 and the patterns with span == (T-1) x first gap occurs): origin 0 only exactly when more than one distinct "
-                        "difference exists",
+                        "difference exists; the same gap patterns at the offsets 2e9 and 1e12 (plus 0,1,2,4,8,16 and the evenly spaced counterpart there) and with "
+                        "dt = 1e-15, 2e-12, 1e6 (dt only scales the t column)",
             bounds={"Tmax": 4 if q else 5, "Tmax_event_steps": 5 if q else 6}),
         Sub("C14.lag0", gen_lag0, run,
             rule=hist + "letters scaled by 0.1, 1/3, 1e-8, 7e5: the lag-zero entry must be == 1.0 bit for bit (also checked in every "
                         "state of the other sub-checks)", bounds={"Tmax": 3}),
         Sub("C14.time_axis", gen_time_axis, run,
-            rule=hist + "first timestep 0 / 30 / 77 / 123456, dt 0.002 / 0.005 / 1.0, increments per event: t = (step - step_0) dt "
+            rule=hist + "first timestep 0 / 30 / 77 / 123456, dt 0.002 / 0.005 / 1.0 and dt = 0.0 / 0 given explicitly, increments per event: t = (step - step_0) dt "
                         "(also checked in every state of the other sub-checks)", bounds={"Tmax": 5}),
         Sub("C14.dtypes", gen_dtypes, run,
             rule=hist + "the series stored as complex64 / float32 / int64 / int32 (integer letters: every product and sum is exact), scalar / vector / "
                         "tensor, even and uneven spacing, N = 2: same table as for float64 / complex128", bounds={"Tmax": 3 if q else 4}),
+        Sub("C14.outputfile", gen_outputfile, run,
+            rule=hist + "values scaled by 1/3 (non-terminating decimals), scalar / vector / tensor, real / complex, even / uneven / per-event spacing; "
+                        "states with an odd frame count pass `outputfile` (names ending in .csv and .dat, the same NAME rewritten by every such state), "
+                        "the others do not: the file has the header t,time_corr, one line per frame, every number equal to the returned table within "
+                        "0.5e-8; calls without `outputfile` leave the file untouched", bounds={"Tmax": 3 if q else 4}),
+        Sub("C14.sequence", gen_sequence, run_sequence,
+            rule=f"explicit-state search over call words of length <= {2 if q else 3} over {len(Y.SEQ_LETTERS)} complete argument tuples (pairs collide in plausible "
+                 "incomplete memo keys: same (nframes, first, last timestep) / different interior - even, uneven, uneven with the same first and last gap; "
+                 "same series / other dt; same shape and timesteps / other values; 2-vectors then 3-vectors; scalar / vector / tensor of the same leading "
+                 "shape; real then complex; other N; other first timestep; same output file NAME / other content) x {fresh objects per call (all alive), "
+                 "shared Snapshots objects and ONE series buffer refilled in place}; every word in a forked child whose library module was re-imported; "
+                 "every call must return (table and file) bit for bit what the same call returns when made first, which is compared with the loop reference",
+            bounds={"letters": len(Y.SEQ_LETTERS), "depth": 2 if q else 3, "modes": 2}),
         Sub("C14.scale", gen_scale, run_scale,
             rule="long series: every length T in " + str(SCALE_T if not q else [64, 65, 129, 257]) + " (around the powers of two where a blocked / "
                  "chunked implementation changes regime) x scalar/vector/tensor x real/complex x {even, every-gap-different, even-except-last-gap}; "
